@@ -289,6 +289,19 @@ func VerifH19f() {
 	for i := 0; i < n; i++ {
 		fs = append(fs, model.File{Key: nd.SymString("key", nd.Choice("keylen", 3)), TxId: model.MainTxId, ContentId: cids[i], Seq: sequence.Seq(nd.U64("seq"))})
 	}
+	// history of the store before: the first record was written earlier by its transaction (the
+	// commit below re-writes it under the same key, as core.UpdateTx does), and another record was
+	// written and deleted again (the library keeps superseded versions and tombstones around)
+	if nd.Choice("earlier-versions", 2) == 1 {
+		pre := fs[0]
+		pre.TxId = "6ba7b810-9dad-11d1-80b4-00c04fd430c8"
+		pre.Seq = 1
+		nd.Assert(r.Set(ctx, pre) == nil, "H19f.earlier-write")
+		gone := model.File{Key: "gone", TxId: model.MainTxId, ContentId: "00112233-4455-6677-8899-aabbccddeeff", Seq: 2}
+		nd.Assert(r.Set(ctx, gone) == nil, "H19f.earlier-write")
+		nd.Assert(r.Delete(ctx, gone) == nil, "H19f.earlier-delete")
+		nd.Reach("H19f.with-history")
+	}
 	err = r.RunTransaction(ctx, func(ctx context.Context) error {
 		for _, f := range fs {
 			if err := r.Set(ctx, f); err != nil {
